@@ -479,6 +479,13 @@ func (c *Cursor) Filter(ctx context.Context, idxStr string, val []interface{}) e
 	if err != nil {
 		return fmt.Errorf("cursor: %w", err)
 	}
+	if c.t.Tree.Root.Size() == 0 {
+		// nothing to position on; Max() on an empty tree is not safe
+		c.currentKey = nil
+		c.currentRow = nil
+		c.eof = true
+		return nil
+	}
 	if !c.desc {
 		if c.min != nil {
 			err = c.cursor.Ceil(ctx, c.min)
